@@ -65,6 +65,20 @@ theorem gpIdx_fst {gs : List Group} {g p : Bytes} {gi gi' pi : Nat} (h : gpIdx g
 
 /-! ### POINT half of `updateParameters` -/
 
+theorem labelsFor_eq {gs : List Group} {g : Bytes} {ol : List Bytes} (h : strsOf gs g LABELS = .ok ol) (frames : List Frame) :
+    labelsFor frames gs g = .ok (match frames with | [] => ol | _ :: _ => []) := by
+  unfold labelsFor; cases frames with
+  | nil => exact h
+  | cons _ _ => rfl
+
+@[simp] theorem pointNames_lazy (frames : List Frame) (ol np : List Bytes) :
+    pointNames frames (match frames with | [] => ol | _ :: _ => []) np = pointNames frames ol np := by
+  cases frames <;> rfl
+
+@[simp] theorem channelNames_lazy (frames : List Frame) (ol na : List Bytes) :
+    channelNames frames (match frames with | [] => ol | _ :: _ => []) na = channelNames frames ol na := by
+  cases frames <;> rfl
+
 /-- what the POINT updater establishes: POINT:FRAMES counts the stored frames, POINT:USED counts the point names (those of
     the first frame when there are data, else the declared labels followed by the new declarations), POINT:LABELS lists them
     whenever the count had to change; nothing outside the group POINT is touched -/
@@ -98,8 +112,8 @@ theorem updatePointParams_post (gs : List Group) (frames : List Frame) (np : Lis
     · rfl
   have hL1 : strsOf g1 POINT LABELS = .ok ol := by
     rw [strsOf_congr (hO1 POINT LABELS (by decide))]; exact hol
-  rw [hL1]
-  simp only [Res.andThen_ok]
+  rw [labelsFor_eq hL1 frames]
+  simp only [Res.andThen_ok, pointNames_lazy]
   refine Outcome.ok_andThen fun used hused => ?_
   refine Outcome.ok_ite _ (fun hc => ?_) (fun hc => ?_)
   · refine Outcome.ok_andThen fun ⟨gU, iUsed⟩ hiU => ?_
@@ -168,8 +182,8 @@ theorem updateAnalogParams_post (gs : List Group) (frames : List Frame) (na : Li
       (∀ g, groupIdx g' g = groupIdx gs g) := by
   unfold updateAnalogParams
   refine Outcome.ok_andThen fun gA hgA => ?_
-  rw [hoa]
-  simp only [Res.andThen_ok]
+  rw [labelsFor_eq hoa frames]
+  simp only [Res.andThen_ok, channelNames_lazy]
   refine Outcome.ok_andThen fun aused haused => ?_
   refine Outcome.ok_ite _ (fun hc => ?_) (fun hc => ?_)
   · refine Outcome.ok_andThen fun ⟨gU, iUsed⟩ hiU => ?_
